@@ -40,6 +40,14 @@ class VerboseHandler(logging.StreamHandler):
         super(VerboseHandler, self).__init__(*args, **kwargs)
 
     def emit(self, record) -> None:
+        try:
+            self._emit(record)
+        except Exception:
+            # A log handler must never raise into the code that logs (e.g. the logged text
+            # contains something that reads like console markup)
+            self.handleError(record)
+
+    def _emit(self, record) -> None:
         msg = self.format(record)
 
         # We check if we're using the spacial syntax with " :: " which denotes a title.
